@@ -17,13 +17,22 @@ pub enum Cons {
     PullNow,
     /// an ack sent as a control message on an already open stream
     StreamCtlAck,
+    /// a stream opened with a tiny max_outstanding_bytes budget (request side open)
+    StreamTinyBudget,
 }
 
 pub type Holder = Arc<Mutex<Vec<tokio::sync::mpsc::Sender<StreamingPullRequest>>>>;
 
 /// A StreamingPull consumer: logs `msgs:<ids>` per response and `end:<status>` when the stream terminates.
 pub async fn stream_client(cx: Ctx, log: Log, who: String, sub: String, keep_open: bool, max_outstanding: i64, holder: Holder) {
-    let (tx, r) = cx.api.streaming_pull(first_stream_req(&sub, max_outstanding)).await;
+    stream_client_x(cx, log, who, sub, keep_open, max_outstanding, 0, holder).await
+}
+
+#[allow(clippy::too_many_arguments)]
+pub async fn stream_client_x(cx: Ctx, log: Log, who: String, sub: String, keep_open: bool, max_outstanding: i64, max_bytes: i64, holder: Holder) {
+    let mut first = first_stream_req(&sub, max_outstanding);
+    first.max_outstanding_bytes = max_bytes;
+    let (tx, r) = cx.api.streaming_pull(first).await;
     if keep_open {
         holder.lock().unwrap().push(tx);
     } else {
@@ -76,11 +85,12 @@ fn program_x(name: &'static str, parked: Vec<Cons>, racing: Vec<Cons>, with_outs
         }
         let mut handles: Vec<(String, Cons, bool, tokio::task::JoinHandle<()>)> = vec![];
         let start = |c: Cons, i: usize, parked: bool| {
-            let who = format!("{}{}", match c { Cons::StreamOpen => "stream-open", Cons::StreamClosed => "stream-closed", Cons::BlockedPull => "blocked-pull", Cons::Ack => "ack", Cons::Modify => "modify", Cons::PullNow => "pull-now", Cons::StreamCtlAck => "stream-ctl-ack" }, i);
+            let who = format!("{}{}", match c { Cons::StreamOpen => "stream-open", Cons::StreamClosed => "stream-closed", Cons::BlockedPull => "blocked-pull", Cons::Ack => "ack", Cons::Modify => "modify", Cons::PullNow => "pull-now", Cons::StreamCtlAck => "stream-ctl-ack", Cons::StreamTinyBudget => "stream-tiny-budget" }, i);
             let (cx2, log2, who2, holder2, ack_id2) = (cx.clone(), log.clone(), who.clone(), holder.clone(), ack_id.clone());
             let label = format!("client:a-{}", who);
             let h = match c {
                 Cons::StreamOpen => cx.spawn(&label, stream_client(cx2, log2, who2, S0.into(), true, 10, holder2)),
+                Cons::StreamTinyBudget => cx.spawn(&label, stream_client_x(cx2, log2, who2, S0.into(), true, 10, 8, holder2)),
                 Cons::StreamClosed => cx.spawn(&label, stream_client(cx2, log2, who2, S0.into(), false, 10, holder2)),
                 Cons::BlockedPull => cx.spawn(&label, async move {
                     let r = cx2.api.pull(S0, 10, false).await;
@@ -117,6 +127,12 @@ fn program_x(name: &'static str, parked: Vec<Cons>, racing: Vec<Cons>, with_outs
         }
         tryv!(cx.quiesce().await);
         cx.freeze(was);
+        if parked.contains(&Cons::StreamTinyBudget) {
+            // the stream gets more un-acked payload than its byte budget, and one more wake-up after that
+            for i in 0..2 {
+                must!(cx, "setup:publish-big", { let a = cx.api.clone(); async move { a.publish(T0, vec![(format!("sixteen-bytes-{:02}", i).into_bytes(), vec![])]).await } });
+            }
+        }
         for (who, _, _, h) in &handles {
             if h.is_finished() {
                 return ScenarioOut::viol(format!("{}/setup-consumer-returned-early", name), format!("{} finished before the deletion: {}", who, log.key()));
@@ -176,7 +192,7 @@ fn program_x(name: &'static str, parked: Vec<Cons>, racing: Vec<Cons>, with_outs
                 continue;
             }
             match c {
-                Cons::StreamOpen | Cons::StreamClosed => {
+                Cons::StreamOpen | Cons::StreamClosed | Cons::StreamTinyBudget => {
                     if last != "end:NotFound" {
                         // a stream that raced with the deletion may also have been refused / ended with another error status
                         // ... and so may a stream one of whose own control messages raced with the deletion: the failure
@@ -223,6 +239,8 @@ pub fn units(thorough: bool) -> Vec<Unit> {
         ("race-blocked-pull", vec![], vec![BlockedPull], false, d2),
         ("race-ack-modify-pull", vec![], vec![Ack, Modify, PullNow], true, d2),
         ("stream-ctl-ack", vec![StreamOpen], vec![StreamCtlAck], true, d2),
+        ("stream-tiny-byte-budget", vec![StreamTinyBudget], vec![], false, d2),
+        ("stream-tiny-byte-budget+stream", vec![StreamTinyBudget, StreamClosed], vec![], false, d2),
     ];
     for (name, parked, racing, out, d) in progs {
         v.push(explore_unit(
